@@ -514,6 +514,7 @@ namespace ip {
 		}
 
 		std::size_t ret = 0;
+		ec.clear();
 
 		for (auto const& buf : bufs)
 		{
